@@ -30,7 +30,7 @@ def gen_case(r, big=False):
         d = r.choice(['ingress', 'egress'])
         key = 'from' if d == 'ingress' else 'to'
         rules = [{key: [{'namespaceSelector': {}}], 'ports': [{'port': r.choice(gen.PORTS)}]},
-                 {key: [{'podSelector': {'matchLabels': {'app': 'x'}}}], 'ports': [{'port': r.choice(gen.NAMES + [80, 81])}]}]
+                 {key: [{'podSelector': {'matchLabels': {'app': 'x'}}}], 'ports': [{'port': r.choice(gen.NAMES + [80, 81])}] + ([{'port': r.choice(gen.NAMES)}, {'port': 8080}] if r.random() < 0.5 else [])}]
         W['netpols'].append({'ns': wl['ns'], 'name': 'mixed', 'podSelector': {}, 'policyTypes': ['Ingress' if d == 'ingress' else 'Egress'], d: rules})
     elif x < 0.5:
         # a policy in a namespace that has neither workloads nor a Namespace object
